@@ -322,12 +322,27 @@ func converterNarrowingIsRangeChecked(c *core.Ctx) {
 	n := 0
 	for _, fn := range append(append(append([]*ssa.Function{}, to...), from...), helpers...) {
 		var lossy []*ssa.Convert
+		var narrows []*ssa.Convert
 		for _, b := range fn.Blocks {
 			for _, in := range b.Instrs {
 				if cv, ok := in.(*ssa.Convert); ok && lossyIntegerConversion(cv) && !smallUnsigned(fn, cv) {
 					lossy = append(lossy, cv)
 				}
+				// float64 to float32: what is beyond the range becomes an infinity
+				if cv, ok := in.(*ssa.Convert); ok {
+					sb, ok1 := cv.X.Type().Underlying().(*types.Basic)
+					db, ok2 := cv.Type().Underlying().(*types.Basic)
+					if _, isK := cv.X.(*ssa.Const); ok1 && ok2 && !isK && sb.Kind() == types.Float64 && db.Kind() == types.Float32 {
+						narrows = append(narrows, cv)
+					}
+				}
 			}
+		}
+		for i, cv := range narrows {
+			okf := orderingGuards(fn, cv.X, cv)
+			n++
+			c.Check(okf, core.SSAName(fn)+"|float32-under-range-test|"+sprintf("%d", i+1), p.Pos(cv.Pos()),
+				core.SSAName(fn)+" narrows a float64 to float32"+ife(okf, " after an ordering test of the value", " without an ordering test: a value beyond the range of float32 becomes an infinity instead of being refused (o.F32 = 1e300 stores +Inf)"))
 		}
 		if len(lossy) == 0 {
 			continue
